@@ -29,6 +29,9 @@ CONSTANTS
   Tok,        \* token (string) -> byte sequence: the concrete spelling of command words / arguments
   NegBulk,    \* "reject": a negative bulk length is a protocol error (intended)
               \* "index" : as coded in redcon.ReadNextCommand (`!ok || count <= 0`): the length indexes the packet
+  Panics,     \* "recover": a panic of the parser on one command (index out of range) is caught around that command:
+              \*            the commands read before it are answered, then protocol error and close (as coded since 9fc07cf)
+              \* "crash"  : as coded before: the panic on the connection goroutine kills the process
   Sniff       \* how a first byte G/P/O (possible HTTP request) is told from a telnet-style line:
               \* "line": by the first line, however terminated (intended: LF-terminated telnet lines are commands)
               \* "crlf": as coded in readNextCommand: only a CRLF ends the sniffed line, a bare LF is skipped,
@@ -62,12 +65,17 @@ Fits(d, max) == Len(d) < Len(max) \/ (Len(d) = Len(max) /\ DigLeq(d, max))
 
 \* redcon parseInt: optional '-', digits only; the empty string and "-" are 0.
 \* A number that does not fit a machine integer is not a length (the code wraps around instead).
+\* `top` is the distance of a 19-digit value from 2^63-1 when that is below 800 (else 800): the parsers add the
+\* packet position and 2 to the length, which wraps around for lengths that close to the largest integer
 ParseInt(s) ==
   LET neg == Len(s) > 0 /\ s[1] = MINUS
       d   == IF neg THEN From(s, 2) ELSE s
-  IN IF (\E i \in 1..Len(d) : ~IsDigit(d[i])) \/ ~Fits(d, MaxInt64) THEN [ok |-> FALSE, n |-> 0]
+  IN IF (\E i \in 1..Len(d) : ~IsDigit(d[i])) \/ ~Fits(d, MaxInt64) THEN [ok |-> FALSE, n |-> 0, top |-> 800]
      ELSE LET v == IF Len(d) > 9 THEN Huge ELSE DecVal(d)
-          IN [ok |-> TRUE, n |-> IF neg THEN 0 - v ELSE v]
+              t == IF ~neg /\ Len(d) = 19 /\ Sub(d, 1, 16) = Sub(MaxInt64, 1, 16) THEN 807 - DecVal(Sub(d, 17, 19)) ELSE 800
+          IN [ok |-> TRUE, n |-> IF neg THEN 0 - v ELSE v, top |-> t]
+\* position + n + 2 exceeds the largest integer (pos: 0-based index of the first data byte, below 700)
+Wraps(n, pos) == n.top < pos + 2
 \* strconv.ParseUint(strings.TrimSpace(v), 10, 64) followed by int(n): at least one digit, digits only,
 \* at most 2^64-1; values from 2^63 become negative by the conversion and are then treated like 0 (as coded)
 TrimSp(s) == LET N == {i \in 1..Len(s) : s[i] \notin {SP, TAB, CR, LF, 11, 12}}
@@ -97,6 +105,7 @@ RespArgs(p, i, j, cnt, acc) ==        \* i: position of the next '$'; j: argumen
              d == e + 1                      \* first data byte
          IN IF ~n.ok THEN Err("resp", p)
             ELSE IF n.n < 0 /\ NegBulk = "reject" THEN Err("resp", p)
+            ELSE IF Wraps(n, 0) THEN Pan("resp", p)                        \* len(packet)-i >= n+2 wraps: packet[i+n]
             ELSE IF Len(p) - d + 1 >= n.n + 2
                  THEN IF d + n.n < 1 THEN Pan("resp", p)                   \* packet[i+n], negative index
                       ELSE IF p[d + n.n] # CR \/ p[d + n.n + 1] # LF THEN Err("resp", p)
@@ -119,17 +128,24 @@ ParseResp(p) ==
 (* Native line tokenizer (readTile38Command / readNativeMessageLine): split *)
 (* on blanks; a token starting with '{' takes the rest of the line; after   *)
 (* SET ... STRING a rest of the form "..." is one argument without quotes.  *)
-RECURSIVE NativeArgs(_, _)
-NativeArgs(line, acc) ==
+\* lone: what a rest consisting of one double quote after SET ... STRING does: "panic" in redcon.readTile38Command
+\* (line[1:0]), "arg" in readNativeMessageLine (HTTP; an ordinary argument since 59d973f)
+PanicArgs == << <<0 - 1>> >>
+RECURSIVE NativeArgsL(_, _, _)
+NativeArgsL(line, acc, lone) ==
   IF line = <<>> THEN acc
   ELSE IF line[1] = LBRACE THEN Append(acc, line)
-  ELSE IF /\ line[1] = DQ /\ line[Len(line)] = DQ /\ Len(acc) > 0
+  ELSE IF /\ line = <<DQ>> /\ lone = "panic" /\ Len(acc) > 0
+          /\ LowerSeq(acc[1]) = <<115, 101, 116>> /\ LowerSeq(acc[Len(acc)]) = <<115, 116, 114, 105, 110, 103>>
+       THEN PanicArgs
+  ELSE IF /\ Len(line) > 1 /\ line[1] = DQ /\ line[Len(line)] = DQ /\ Len(acc) > 0
           /\ LowerSeq(acc[1]) = <<115, 101, 116>>                                   \* "set"
           /\ LowerSeq(acc[Len(acc)]) = <<115, 116, 114, 105, 110, 103>>             \* "string"
        THEN Append(acc, Sub(line, 2, Len(line) - 1))
   ELSE LET s == Find(line, SP, 1) IN
        IF s = 0 THEN Append(acc, line)
-       ELSE NativeArgs(From(line, s + 1), IF s > 1 THEN Append(acc, Sub(line, 1, s - 1)) ELSE acc)
+       ELSE NativeArgsL(From(line, s + 1), IF s > 1 THEN Append(acc, Sub(line, 1, s - 1)) ELSE acc, lone)
+NativeArgs(line, acc) == NativeArgsL(line, acc, "arg")
 
 (* Native frame  $<len> <len bytes>CRLF  *)
 ParseNative(p) ==
@@ -138,9 +154,12 @@ ParseNative(p) ==
   ELSE LET n == ParseInt(Sub(p, 2, s - 1))
            d == s + 1
        IN IF ~n.ok \/ n.n < 0 THEN Err("native", p)
+          ELSE IF Wraps(n, d - 1) THEN Pan("native", p)                   \* len(packet) >= i+n+2 wraps: packet[i+n]
           ELSE IF Len(p) >= (d - 1) + n.n + 2
                THEN IF p[d + n.n] # CR \/ p[d + n.n + 1] # LF THEN Err("native", p)
-                    ELSE Res("ok", "native", NativeArgs(Sub(p, d, d + n.n - 1), <<>>), From(p, d + n.n + 2))
+                    ELSE LET a == NativeArgsL(Sub(p, d, d + n.n - 1), <<>>, "panic") IN
+                         IF a = PanicArgs THEN Pan("native", p)
+                         ELSE Res("ok", "native", a, From(p, d + n.n + 2))
                ELSE Inc("native", p)
 
 -----------------------------------------------------------------------------
@@ -271,7 +290,8 @@ RECURSIVE ReadMessages(_, _, _)
 ReadMessages(data, msgs, sniff) ==
   IF data = <<>> THEN [st |-> "ok", msgs |-> msgs, rest |-> <<>>]
   ELSE LET r == ParseOneS(data, sniff) IN
-    CASE r.st = "panic" -> [st |-> "panic", msgs |-> <<>>, rest |-> data]
+    CASE r.st = "panic" /\ Panics = "crash" -> [st |-> "panic", msgs |-> <<>>, rest |-> data]
+      [] r.st = "panic" -> [st |-> "err", msgs |-> msgs, rest |-> data]       \* recovered around this command
       [] r.st = "err"   -> [st |-> "err", msgs |-> msgs, rest |-> data]
       [] r.st = "inc"   -> [st |-> "ok", msgs |-> msgs, rest |-> data]
       [] r.st = "ok"    ->
